@@ -345,6 +345,202 @@ fn gen_streams(out: &mut dyn FnMut(String), rng: &mut Rng, thorough: bool) {
     } }
 }
 
+// ---------------------------------------------------------------- robustness streams, part 2 (hidden state, huge sizes)
+
+fn transpose(m: &M) -> M { let n = m.len(); (0..n).map(|i| (0..n).map(|j| m[j][i]).collect()).collect() }
+/// P M P^T
+fn sym_perm(m: &M, p: &[usize]) -> M { let n = m.len(); (0..n).map(|i| (0..n).map(|j| m[p[i]][p[j]]).collect()).collect() }
+fn row_perm(m: &M, p: &[usize]) -> M { (0..m.len()).map(|i| m[p[i]].clone()).collect() }
+fn col_perm(m: &M, p: &[usize]) -> M { let n = m.len(); (0..n).map(|i| (0..n).map(|j| m[i][p[j]]).collect()).collect() }
+/// reflection in the anti-diagonal (keeps det, trace, anti-trace, every symmetric function of the entries)
+fn anti_transpose(m: &M) -> M { let n = m.len(); (0..n).map(|i| (0..n).map(|j| m[n - 1 - j][n - 1 - i]).collect()).collect() }
+/// the same multiset of entries in another arrangement
+fn shuffled(m: &M, rng: &mut Rng) -> M {
+    let n = m.len();
+    let flat: Vec<i64> = m.iter().flatten().copied().collect();
+    let p = rng.perm(n * n);
+    (0..n).map(|i| (0..n).map(|j| flat[p[i * n + j]]).collect()).collect()
+}
+fn non_identity_perm(rng: &mut Rng, n: usize) -> Vec<usize> {
+    loop { let p = rng.perm(n); if p.iter().enumerate().any(|(i, &x)| i != x) { return p } }
+}
+
+/// A matrix and its look-alikes (same size, determinant up to sign, trace, sums, multiset of entries), every one directly after the
+/// original and the original again after every one: a cache keyed by any fingerprint of the values answers for the wrong matrix.
+fn look_alikes(m: &M, rng: &mut Rng) -> Vec<M> {
+    let n = m.len();
+    let rev: Vec<usize> = (0..n).rev().collect();
+    let p = non_identity_perm(rng, n);
+    let q = non_identity_perm(rng, n);
+    vec![m.clone(), transpose(m), m.clone(), sym_perm(m, &p), m.clone(), sym_perm(m, &rev), anti_transpose(m), m.clone(),
+         row_perm(m, &q), col_perm(m, &q), transpose(&sym_perm(m, &p)), shuffled(m, rng), m.clone()]
+}
+
+fn gen_hidden_state(out: &mut dyn FnMut(String), rng: &mut Rng, thorough: bool) {
+    // ---- 6a. value fingerprints: every operation on a matrix directly followed by the same operation on its look-alikes
+    // the demo of C15-r3-m1 first (corpus), then the families
+    let mut mats: Vec<M> = vec![vec![vec![5, 1, 2], vec![-1, 6, 1], vec![0, 2, 7]], vec![vec![2, 1], vec![0, 3]], vec![vec![0, 2], vec![3, 1]]];
+    let reps = if thorough { 8 } else { 2 };
+    for n in 2..=6usize { for _ in 0..reps {
+        mats.push(rand_conditioned(rng, n)); mats.push(perm_diag_dominant(rng, n)); mats.push(triangular(rng, n, true)); mats.push(triangular(rng, n, false)); mats.push(pivot_forcing(rng, n));
+    } }
+    if thorough { mats.push(rand_conditioned(rng, 7)); }
+    for m in &mats {
+        let n = m.len();
+        if *m == transpose(m) { continue }
+        let vs = look_alikes(m, rng);
+        let b1 = show_vec(&rand_rhs(rng, n, 1));
+        let b2 = show_shape(&[n, 2], &rand_rhs(rng, n, 2));
+        for v in &vs { out(format!("solve {} {b1}", show_mat(v))); }
+        for v in &vs { out(format!("solve {} {b2}", show_mat(v))); }
+        // the right-hand side changes as well
+        for v in vs.iter().take(5) { out(format!("solve {} {}", show_mat(v), show_vec(&rand_rhs(rng, n, 1)))); }
+        for v in &vs { out(format!("det {}", show_mat(v))); }
+        for v in &vs { out(format!("qr {}", show_mat(v))); }
+        for (o, ax) in [("none", "none"), ("fro", "none"), ("i1", "0"), ("inf", "0,1"), ("i1", "0,1"), ("i2", "-1")] {
+            for v in &vs { out(format!("norm {} {o} {ax} none", show_mat(v))); }
+        }
+        // interleaved: the four operations take turns on the look-alikes
+        for (t, v) in vs.iter().enumerate().take(7) {
+            let a = show_mat(v);
+            match t % 4 { 0 => out(format!("solve {a} {b1}")), 1 => out(format!("det {a}")), 2 => out(format!("qr {a}")), _ => out(format!("norm {a} none none none")) }
+            out(format!("solve {a} {b2}"));
+        }
+        // scaled and typed look-alikes (statics of a generic fn are shared by all element types): same arguments, types back to back
+        let k = 1 + rng.below(2);
+        let x0: Vec<i64> = (0..n * k).map(|_| rng.range(-6, 6)).collect();
+        for v in vs.iter().take(4) {
+            let a = show_mat(v);
+            let b: Vec<i64> = (0..n).flat_map(|i| (0..k).map(|c| (0..n).map(|t| v[i][t] * x0[t * k + c]).sum::<i64>()).collect::<Vec<i64>>()).collect();
+            let bs = show_shape(&[n, k], &b);
+            for ty in ["i64", "f64", "i32", "f32", "f64"] { out(format!("xsolve {a} {bs} {ty}/1/1")); }
+            for ty in ["i32", "f64", "f32", "i64", "f64"] { out(format!("xdet {a} {ty}/1/1")); }
+            for ty in ["i64", "f64", "f32", "i32", "f64"] { out(format!("xnorm {a} none none none {ty}/1/1")); out(format!("xnorm {a} i1 0 none {ty}/1/1")); }
+            for sc in ["2^-30", "1", "10^9"] { out(format!("xsolve {a} {b1} f64/{sc}/1")); out(format!("xqr {a} f64/{sc}/1")); out(format!("xdet {a} f64/{sc}/1")); }
+        }
+        if n <= 4 { for v in vs.iter().take(3) { let a = show_mat(v); out(format!("xqr {a} f32/1/1")); out(format!("xqr {a} f64/1/1")); } }
+        // ---- 6c. a refused call directly followed by a valid one (and the other way round) on the same thread
+        let kind = rng.below(5); let s = singular_kind(rng, n, kind);
+        let a = show_mat(m);
+        out(format!("solve {} {b1}", show_mat(&s))); out(format!("solve {a} {b1}"));
+        out(format!("solve {a} {}", show_vec(&rand_rhs(rng, n + 1, 1)))); out(format!("solve {a} {b1}"));
+        out(format!("solve {}:{} {b1}", show_list(&[n, n + 1]), show_list(&rand_rhs(rng, n, n + 1)))); out(format!("solve {a} {b2}"));
+        out(format!("det {}:{}", show_list(&[n, n + 1]), show_list(&rand_rhs(rng, n, n + 1)))); out(format!("det {a}"));
+        out(format!("qr {}:{}", show_list(&[n + 1, n]), show_list(&rand_rhs(rng, n, n + 1)))); out(format!("qr {a}"));
+        out(format!("qr {}", show_vec(&rand_rhs(rng, n, 1)))); out(format!("qr {a}"));
+        out(format!("norm {a} s{} none none", hex("x"))); out(format!("norm {a} none none none"));
+        out(format!("norm {a} i1 0,0 none")); out(format!("norm {a} i1 0,1 none"));
+        out(format!("norm {a} fro 0 none")); out(format!("norm {a} fro none none"));
+        out(format!("norm {a} inf 5 none")); out(format!("norm {a} inf 1 none"));
+    }
+    // stacks: the blocks of a stack are look-alikes of one another, and the stack is followed by the stack of the transposes
+    for n in 2..=4usize { for _ in 0..(if thorough { 4 } else { 1 }) {
+        let m = rand_conditioned(rng, n);
+        if m == transpose(&m) { continue }
+        let vs = look_alikes(&m, rng);
+        let e: Vec<i64> = vs.iter().flatten().flatten().copied().collect();
+        let et: Vec<i64> = vs.iter().map(transpose).flatten().flatten().collect();
+        let (a, at) = (show_shape(&[vs.len(), n, n], &e), show_shape(&[vs.len(), n, n], &et));
+        for x in [&a, &at, &a] { out(format!("det {x}")); }
+        for x in [&a, &at, &a] { out(format!("qr {x}")); }
+        for x in [&a, &at, &a] { out(format!("norm {x} none none none")); out(format!("norm {x} i1 -2,-1 none")); out(format!("norm {x} inf 1,2 true")); }
+    } }
+    // ---- 6b. shapes colliding under the weak polynomial hashes, back to back in both orders (A, B, A)
+    for (i, (sa, sb)) in collision_shape_pairs().into_iter().enumerate() {
+        let cnt_b: usize = sb.iter().product();
+        let heavy = cnt_b > 600;     // multipliers 131 / 257: the lane reductions of the model cost ~10 ms there
+        if heavy && !thorough && i % 3 != 0 { continue }
+        let (ca, cb): (usize, usize) = (sa.iter().product(), sb.iter().product());
+        let (ta, tb) = (format!("i{}+{}", show_list(&sa), -(ca as i64) / 2 - 1), format!("i{}+{}", show_list(&sb), -(cb as i64) / 2 - 1));
+        let nd = sa.len();
+        let mut forms: Vec<(&str, String)> = vec![("none", "none".into()), ("i1", "0".into()), ("inf", "-1".into()), ("i2", (nd - 1).to_string()), ("i1", "0,1".into())];
+        if nd == 3 { forms.push(("inf", "1,2".into())); forms.push(("i1", "1".into())); }
+        if heavy && !thorough { forms.truncate(3); }
+        for (o, ax) in &forms { for t in [&ta, &tb, &ta] { out(format!("norm {t} {o} {ax} none")); } }
+    }
+    // stacks whose LEADING axes collide: det / qr / matrix norms of [a,b,n,n] directly before and after [a-1,b+m,n,n]
+    for &mul in &[31usize, 33, 37, 131] { for (a0, b0) in [(2usize, 1usize), (3, 2)] { for n in [2usize, 3] {
+        if mul == 131 && (!thorough || n == 3) { continue }
+        let (la, lb) = (vec![a0, b0], vec![a0 - 1, b0 + mul]);
+        let mk = |lead: &[usize], rng: &mut Rng| -> String {
+            let cnt: usize = lead.iter().product();
+            let e: Vec<i64> = (0..cnt).flat_map(|t| { let m = if t % 3 == 2 { pivot_forcing(rng, n) } else { rand_conditioned(rng, n) }; m.into_iter().flatten().collect::<Vec<i64>>() }).collect();
+            let mut shape = lead.to_vec(); shape.push(n); shape.push(n);
+            show_shape(&shape, &e)
+        };
+        let (xa, xb) = (mk(&la, rng), mk(&lb, rng));
+        for x in [&xa, &xb, &xa] { out(format!("det {x}")); }
+        for x in [&xa, &xb, &xa] { out(format!("qr {x}")); }
+        for x in [&xa, &xb, &xa] { out(format!("norm {x} i1 -2,-1 none")); out(format!("norm {x} none none none")); }
+    } } }
+}
+
+/// ---- 7. huge inputs: 8 193 … 140 000 elements, counts that are no multiples of 1000 / 4096 / 6000.  The whole-array forms (default
+/// norm, 2-norm of a vector, Frobenius norm of a matrix) are linear in the model driver; the lane reductions (1 / inf / 0 / by axis)
+/// are quadratic there and stay at <= 20 011 elements.  `exec` also evaluates the definitions natively on every case (small and huge).
+fn gen_huge(out: &mut dyn FnMut(String), rng: &mut Rng, thorough: bool) {
+    let lens: Vec<usize> = vec![8193, 9001, 11999, 12000, 12001, 12289, 13001, 16383, 16385, 17999, 18001, 20011, 24001, 32769, 33001, 50021, 65537, 70001, 100003, 131073];
+    for &len in &lens {
+        let t = format!("i{}+{}", len, -(len as i64) / 2 - 1);
+        let full = thorough || len <= 20011;   // the model driver needs ~1.5 us per element and case: above 20 011 four forms per length in the quick tier
+        out(format!("norm {t} none none none")); if full || len % 2 == 0 { out(format!("norm {t} i2 none none")); }
+        if full { out(format!("norm {t} s{} none none", hex("2"))); out(format!("norm {t} none none true")); }
+        if len <= 70001 { if full || len == 33001 { out(format!("xnorm {t} none none none i64/1/1")); } if full { out(format!("xnorm {t} i2 none none f64/2^-30/1")); } }
+        // the same count as a matrix: default and Frobenius
+        for (k, shape) in [vec![1, len], vec![len, 1]].into_iter().enumerate() {
+            let t2 = format!("i{}+{}", show_list(&shape), -(len as i64) / 2 - 1);
+            if full || (k == len % 4 / 2 && len % 2 == 1) { out(format!("norm {t2} fro none none")); }
+            if full { out(format!("norm {t2} none none none")); }
+        }
+    }
+    let mut shapes: Vec<Vec<usize>> = vec![vec![1500, 3, 3], vec![130, 127], vec![129, 131], vec![2, 3, 5001], vec![2, 35003], vec![35003, 2], vec![300, 301], vec![7, 1717], vec![3001, 5]];
+    for s in huge_shapes() { if !shapes.contains(&s) { shapes.push(s); } }
+    for shape in &shapes {
+        let cnt: usize = shape.iter().product();
+        let t = format!("i{}+{}", show_list(shape), -(cnt as i64) / 2 - 1);
+        let full = thorough || cnt <= 20000;
+        out(format!("norm {t} none none none")); if full { out(format!("norm {t} none none true")); }
+        if shape.len() == 2 { if full || cnt <= 40000 { out(format!("norm {t} fro none none")); } if full || cnt > 40000 { out(format!("norm {t} S{} none none", hex("fro"))); } }
+        if shape.len() == 1 { out(format!("norm {t} i2 none none")); }
+        if full { out(format!("xnorm {t} none none none f64/10^-9/1")); }
+    }
+    // digits (never zero) on every element type: sums of squares stay below 2^24, so even f32 is exact
+    for &len in &[8193usize, 12001, 13500, 16385, 18001, 20011, 33001, 70001] {
+        if len > 20011 && !thorough { continue }
+        let vals = nonzero_vals(rng, len);
+        let a = show_shape(&[len], &vals);
+        out(format!("norm {a} none none none")); out(format!("norm {a} i2 none none"));
+        for ty in ["f32", "i32", "i64"] { out(format!("xnorm {a} none none none {ty}/1/1")); }
+        if len <= 20011 {
+            // lane reductions (quadratic in the model driver)
+            for o in ["i1", "inf", "ninf", "i0", "i3"] { if thorough || len <= 12001 || (o == "i1" && len != 18001) { out(format!("norm {a} {o} none none")); } }
+            if thorough || len <= 16385 { out(format!("norm {a} i2 0 none")); }
+            if thorough || len <= 13500 || len == 20011 { out(format!("norm {a} i1 -1 true")); }
+        }
+        if len == 13500 {
+            let s = show_shape(&[1500, 3, 3], &vals);
+            out(format!("norm {s} none none none")); out(format!("norm {s} i1 -2,-1 none")); out(format!("norm {s} inf 1,2 none")); out(format!("norm {s} i2 0 none")); out(format!("norm {s} i1 2 none"));
+            out(format!("det {s}")); out(format!("qr {s}")); out(format!("xdet {s} i32/1/1"));
+        }
+    }
+    // by axis on 16 510 … 17 161 elements (lanes of 127 … 131, not multiples of 8 / 32)
+    for shape in [vec![130usize, 127], vec![129, 131]] {
+        let cnt: usize = shape.iter().product();
+        let a = show_shape(&shape, &nonzero_vals(rng, cnt));
+        for (o, ax) in [("i1", "0"), ("i2", "1"), ("inf", "-1"), ("ninf", "0"), ("i0", "1"), ("i1", "0,1"), ("inf", "0,1"), ("i1", "1,0"), ("i-1", "0,1"), ("fro", "none"), ("none", "none")] {
+            if !thorough && shape[0] == 129 && !(ax == "0" || ax == "1" || o == "inf") { continue }
+            if !thorough && shape[0] == 130 && (o == "i-1" || o == "ninf") { continue }
+            out(format!("norm {a} {o} {ax} none"));
+        }
+    }
+    // long stacks of small matrices: det / qr block by block (4100 and 2000 blocks)
+    for (cnt, n) in [(4100usize, 2usize), (2001, 3)] {
+        let e: Vec<i64> = (0..cnt).flat_map(|t| { let m = if t % 5 == 4 { pivot_forcing(rng, n) } else { rand_conditioned(rng, n) }; m.into_iter().flatten().collect::<Vec<i64>>() }).collect();
+        let a = show_shape(&[cnt, n, n], &e);
+        out(format!("det {a}")); out(format!("qr {a}")); out(format!("norm {a} none none none")); out(format!("norm {a} i1 1,2 none"));
+    }
+}
+
 fn gen(tier: &str, seed: u64, out: &mut dyn FnMut(String)) {
     let thorough = tier == "thorough";
     let mut rng = Rng::new(seed);
@@ -360,6 +556,11 @@ fn gen(tier: &str, seed: u64, out: &mut dyn FnMut(String)) {
     out(format!("norm {} none none none", show_shape(&[3, 5, 5], &(1..=75).map(|i| (i % 9) + 1).collect::<Vec<i64>>())));
     out(format!("norm {} i2 none none", show_shape(&[67], &(1..=67).map(|i| (i % 5) - 7).collect::<Vec<i64>>())));
     out("solve 6,6:1,2,0,1,3,1,0,1,2,1,0,2,2,0,1,3,1,0,1,1,0,2,1,3,3,1,2,0,1,1,1,3,2,2,3,3 6:1,2,3,4,5,6".into());
+    // round-3 seeded changes: a matrix directly followed by its transpose (factor cache keyed by a fingerprint), 12 001 elements (dropped remainder)
+    out("solve 3,3:5,1,2,-1,6,1,0,2,7 3:1,2,3".into());
+    out("solve 3,3:5,-1,0,1,6,2,2,1,7 3:1,2,3".into());
+    out("norm i12001+-6001 none none none".into());
+    out("norm i1500,3,3+-6751 none none none".into());
     // ---- exhaustive small scope
     // every 2x2 matrix over -2..2: det, elimination, row exchange, product with a fixed partner, solve (vector, 1, 2, 3 columns), qr
     let fixed: M = vec![vec![2, -1], vec![1, 3]];
@@ -431,6 +632,9 @@ fn gen(tier: &str, seed: u64, out: &mut dyn FnMut(String)) {
     gen_norms(out, thorough);
     // ---- robustness streams: sizes, zero-length axes, element types, exact scales (both receivers are exercised by every case)
     gen_streams(out, &mut rng, thorough);
+    // ---- robustness streams, part 2: hidden state (look-alike matrices, colliding shapes, refused-then-valid, types back to back), huge inputs
+    gen_hidden_state(out, &mut rng, thorough);
+    gen_huge(out, &mut rng, thorough);
     // ---- malformed
     for line in [
         "solve 2,3:1,2,3,4,5,6 2:1,2", "solve 3,2:1,2,3,4,5,6 3:1,2,3", "solve 4:1,2,3,4 2:1,2", "solve 1,1:5 1:10", "solve 2,2,2:1,2,3,4,5,6,7,9 2:1,2",
@@ -978,7 +1182,42 @@ fn exec_x(op: &str, args: &[&str], expected: &str) -> Option<Verdict> {
     }
 }
 
+thread_local! {
+    /// the previous case of this thread (line, model answer, what the crate answered) — for the A–B–A discipline
+    static PREV: std::cell::RefCell<Option<(String, Vec<String>, String, String)>> = const { std::cell::RefCell::new(None) };
+    static SEQ: std::cell::Cell<u64> = const { std::cell::Cell::new(0) };
+}
+fn verdict_text(v: &Option<Verdict>) -> String {
+    match v { None => "harness-error".into(), Some(Verdict::Match(o)) => format!("match {o}"), Some(Verdict::Open(o)) => format!("open {o}"), Some(Verdict::Mismatch { observed, .. }) => format!("mismatch {observed}") }
+}
+
+/// A–B–A: every third case B is followed by a re-run of the case A executed just before it; the crate must answer A exactly as it did
+/// the first time (a memo / cache / accumulator that survives a call makes the answer depend on the call in between).
 fn exec(op: &str, args: &[&str], expected: &str) -> Option<Verdict> {
+    let v = exec_case(op, args, expected);
+    let seq = SEQ.with(|s| { let x = s.get() + 1; s.set(x); x });
+    let size: usize = args.iter().map(|a| a.len()).sum();
+    let prev = PREV.with(|p| p.borrow_mut().take());
+    let mut out = v;
+    if let Some((pop, pargs, pexp, ptext)) = &prev {
+        let differs = pop != op || pargs.iter().map(String::as_str).ne(args.iter().copied());
+        if differs && seq % 3 == 0 && !matches!(out, Some(Verdict::Mismatch { .. }) | None) {
+            let pa: Vec<&str> = pargs.iter().map(String::as_str).collect();
+            let again = verdict_text(&exec_case(pop, &pa, pexp));
+            if again != *ptext {
+                out = mismatch(format!("A-B-A: `{} {}` answered `{}` before this case and `{}` after it", pop, truncate(&pa.join(" "), 300), truncate(ptext, 300), truncate(&again, 300)),
+                               "the answer to a call must not depend on the calls made before it (hidden state)".into());
+            }
+        }
+    }
+    // huge case lines are not kept (the re-run would double their cost)
+    let keep = size <= 20_000;
+    let text = verdict_text(&out);
+    PREV.with(|p| *p.borrow_mut() = if keep { Some((op.to_string(), args.iter().map(|a| a.to_string()).collect(), expected.to_string(), text)) } else { None });
+    out
+}
+
+fn exec_case(op: &str, args: &[&str], expected: &str) -> Option<Verdict> {
     match op {
         "solve" => exec_solve(args, expected),
         "det" => exec_det(args, expected),
